@@ -2,6 +2,7 @@ package props
 
 import (
 	"fmt"
+	"go/token"
 	"go/types"
 	"sort"
 	"strings"
@@ -80,4 +81,62 @@ func c01VisitedTravels(c *core.Check) {
 			})
 		}
 	}
+}
+
+// c01EmptyGrid (R30): collapseTableBorders builds one row of borders per grid row and indexes the rows and the
+// columns it was told the grid has; a table with columns but no row (`<table><col></table>`) or rows without cells
+// has one of the two numbers zero.  Everything after the early return is reached only when both gridWidth and
+// gridHeight were found different from zero (with `&&` in place of `||` a collapsed-border table with a column and
+// no row panics in BuildFormattingStructure).
+func c01EmptyGrid(c *core.Check) {
+	p := c.Prog
+	r := c.Rule("R30", "no border grid for an empty table: in html/boxes.collapseTableBorders the first allocation of a grid is reached only when gridWidth and gridHeight were both compared with zero and found different", 1)
+	fn := p.Fn("html/boxes", "collapseTableBorders")
+	if fn == nil {
+		r.Anchor("html/boxes.collapseTableBorders")
+		return
+	}
+	key := "html/boxes.collapseTableBorders | both dimensions non-zero"
+	var site *ssa.BasicBlock
+	core.Instrs(fn, func(in ssa.Instruction) {
+		if _, ok := in.(*ssa.MakeSlice); ok && site == nil {
+			site = in.Block()
+		}
+	})
+	if site == nil || len(fn.Params) < 3 {
+		r.Unknown(key, p.Pos(fn.Pos()), "no allocation of a grid found")
+		return
+	}
+	type zt struct {
+		atom  ssa.Value
+		param string
+		eq    bool
+	}
+	var zs []zt
+	var atoms []ssa.Value
+	for _, a := range core.CondAtoms(fn) {
+		b, ok := a.(*ssa.BinOp)
+		if !ok || (b.Op != token.EQL && b.Op != token.NEQ) {
+			continue
+		}
+		prm, ok := b.X.(*ssa.Parameter)
+		if !ok || (prm.Name() != "gridWidth" && prm.Name() != "gridHeight") {
+			continue
+		}
+		if k, ok := core.ConstInt(b.Y); !ok || k != 0 {
+			continue
+		}
+		zs = append(zs, zt{a, prm.Name(), b.Op == token.EQL})
+		atoms = append(atoms, a)
+	}
+	ok, _ := core.GuardedBy(fn, site, atoms, func(m map[ssa.Value]bool) bool {
+		nz := map[string]bool{}
+		for _, z := range zs {
+			if m[z.atom] != z.eq { // the test says "not zero"
+				nz[z.param] = true
+			}
+		}
+		return nz["gridWidth"] && nz["gridHeight"]
+	})
+	r.Cond(ok, key, p.Pos(fn.Pos()), "the grids are allocated only for a table with rows and columns", "a path reaches the allocation of the grids with gridWidth or gridHeight possibly zero: rows or columns that do not exist are indexed")
 }
